@@ -461,4 +461,37 @@ theorem cmdBitCount_bounds (c : Ctx) (db : Db) (k b : Bytes) (e : Entry) (s t : 
   simp only [hl, hb, hq1]
   cases m <;> simp <;> split_ifs <;> simp_all [R.ok]
 
+
+theorem srem8_nonneg (x : BitVec 64) (h : 0 ≤ x.toInt) : BitVec.srem x 8#64 = BitVec.ofNat 64 (x.toNat % 8) := by
+  have hm : x.msb = false := by rw [BitVec.msb_eq_toInt]; simp; omega
+  have h8 : (8#64).msb = false := by decide
+  apply BitVec.eq_of_toNat_eq
+  rw [BitVec.toNat_srem, hm, h8]
+  have e8 : (8#64).toNat = 8 := by decide
+  simp only [BitVec.toNat_ofNat, e8]
+  have := x.isLt
+  omega
+
+/-- the two masks of `countSetBitRange` (BITCOUNT … BIT): for non-negative bit positions the first mask keeps the bits
+    of the first byte from position `start % 8` on (most significant bit = position 0), the second the bits of the
+    last byte up to position `end % 8` -/
+theorem go_bitcountMasks (s e : BitVec 64) (hs : 0 ≤ s.toInt) (he : 0 ≤ e.toInt) :
+    (Go.bitcountMasks s e).1.toNat = 2 ^ (8 - s.toNat % 8) - 1 ∧
+    (Go.bitcountMasks s e).2.toNat = 256 - 2 ^ (7 - e.toNat % 8) := by
+  unfold Go.bitcountMasks
+  simp only [srem8_nonneg s hs, srem8_nonneg e he]
+  have h1 : s.toNat % 8 < 8 := Nat.mod_lt _ (by decide)
+  have h2 : e.toNat % 8 < 8 := Nat.mod_lt _ (by decide)
+  generalize s.toNat % 8 = a at *
+  generalize e.toNat % 8 = b at *
+  constructor
+  · interval_cases a <;> decide
+  · interval_cases b <;> decide
+
+/-- what the two mask values select: bit position `j` of a byte (0 = most significant) is kept by the first mask iff
+    `a ≤ j`, by the second iff `j ≤ a` (the whole finite table) -/
+theorem masks_select : ∀ (a j : Fin 8),
+    (2 ^ (8 - a.val) - 1).testBit (7 - j.val) = decide (a.val ≤ j.val) ∧
+    (256 - 2 ^ (7 - a.val)).testBit (7 - j.val) = decide (j.val ≤ a.val) := by decide
+
 end RedisEmu
